@@ -9,7 +9,7 @@ from hypothesis import strategies as st
 from ..ref import template as rt
 
 # the document the generated paths point into (kept small and typed)
-BASE_INPUT = {"s": "a,b", "s2": "x y", "n": 3, "z": 0, "neg": -2, "f": 1.5, "t": True, "nul": None,
+BASE_INPUT = {"s": "a,b", "s2": "x y", "n": 3, "z": 0, "neg": -2, "f": 1.5, "fi": 2.0, "t": True, "nul": None,
               "arr": [1, 2, 2, "a", "a"], "e": [], "obj": {"k": "v", "n": 1}, "obj2": {"k": "w", "z": [1]},
               "js": "{\"a\": [1, 2]}", "b64": "aGVsbG8=", "nested": {"arr": [[1, 2], [3]]}}
 BASE_CONTEXT = {"Execution": {"Input": {"q": 7}, "Name": "e1"}, "State": {"Name": "S"}, "x": "ctx"}
@@ -18,7 +18,7 @@ STR_PATHS = ["$.s", "$.s2", "$.obj.k", "$.js", "$.b64", "$$.x", "$$.State.Name"]
 INT_PATHS = ["$.n", "$.z", "$.neg", "$.obj.n", "$$.Execution.Input.q"]
 ARR_PATHS = ["$.arr", "$.e", "$.nested.arr", "$.nested.arr[0]", "$.obj2.z"]
 OBJ_PATHS = ["$.obj", "$.obj2", "$$.Execution.Input"]
-ANY_PATHS = STR_PATHS + INT_PATHS + ARR_PATHS + OBJ_PATHS + ["$.f", "$.t", "$.nul", "$"]
+ANY_PATHS = STR_PATHS + INT_PATHS + ARR_PATHS + OBJ_PATHS + ["$.f", "$.fi", "$.t", "$.nul", "$"]
 MISSING_PATHS = ["$.zz", "$.obj.zz", "$.arr[9]", "$$.zz"]
 
 META = ",'\\()[]^ "        # metacharacters the property names (braces only inside Format templates)
@@ -134,8 +134,9 @@ def obj_arg(depth):
 
 
 def scalar_arg():
-    return st.one_of(strings().map(S), st.integers(-3, 12).map(L), st.sampled_from([None, True, False, 1.5]).map(L),
-                     st.sampled_from(STR_PATHS + INT_PATHS + ["$.f", "$.t", "$.nul"]).map(P))
+    # (1.0 / 2.0 / $.fi: numbers with an integral value that are not integers - an index, a size or a range bound has to be an integer)
+    return st.one_of(strings().map(S), st.integers(-3, 12).map(L), st.sampled_from([None, True, False, 1.5, 1.0, 2.0]).map(L),
+                     st.sampled_from(STR_PATHS + INT_PATHS + ["$.f", "$.t", "$.nul", "$.fi"]).map(P))
 
 
 def any_arg(depth):
@@ -269,6 +270,11 @@ def ill_formed(draw):
             ("States.MathAdd", [S("1"), L(2)]), ("States.MathAdd", [L(1.5), L(2)]), ("States.MathAdd", [L(True), L(2)]), ("States.MathRandom", [S("a"), L(3)]),
             ("States.StringSplit", [L(1), S(",")]), ("States.StringSplit", [S("a,b"), L(1)]), ("States.StringToJson", [S("{not json")]),
             ("States.StringToJson", [L(3)]), ("States.Format", [L(3)]), ("States.Format", []), ("States.Format", [S("{} {}"), S("only-one")]),
+            # numbers with an integral value that are not integers, where an index / size / bound / step has to be one
+            ("States.ArrayGetItem", [P("$.arr"), L(1.0)]), ("States.ArrayGetItem", [P("$.arr"), P("$.fi")]), ("States.ArrayPartition", [P("$.arr"), L(2.0)]),
+            ("States.ArrayPartition", [P("$.arr"), P("$.fi")]), ("States.ArrayRange", [L(1.0), L(3), L(1)]), ("States.ArrayRange", [L(1), L(3.0), L(1)]),
+            ("States.ArrayRange", [L(1), L(3), L(1.0)]), ("States.ArrayRange", [L(1), P("$.fi"), L(1)]), ("States.MathRandom", [L(1.0), L(5)]),
+            ("States.MathRandom", [L(1), P("$.fi")]), ("States.MathAdd", [L(1.0), L(2)]), ("States.MathAdd", [L(1), P("$.fi")]),
         ]))
         return C(f, *args).render(), "type"
     if kind == "name":
